@@ -34,8 +34,11 @@ ASSUMPTIONS = [
     "single thread (concurrency is C16); templates have no include/inherit/namespace edges (C07)",
     "where the statement is silent the model accepts several outcomes instead of guessing: change within the "
     "second of the compile; a file of the same URI changed in another directory while the URI is cached; a module "
-    "file that is not older than the source (module staleness is C15); permission flips; LRU eviction of a "
-    "put_string/put_template entry (the entry is gone afterwards - counted under event:put_entry_evicted)",
+    "file whose generation second equals the source's mtime second (module staleness proper is C15; a module "
+    "generated from ANOTHER directory's file and newer than the file being loaded is NOT excused, see STRICT_XDIR); "
+    "permission flips; which exception class an unreadable file raises (OSError or TemplateLookupException); LRU "
+    "eviction of a put_string/put_template entry (the statement bounds the cache including such entries, so the "
+    "entry is gone afterwards - counted under event:put_entry_evicted)",
     "LRU recency of put_string/put_template over an existing key is taken as either the old or the new stamp",
 ]
 
@@ -47,6 +50,14 @@ CONFIGS = [(fs, cs, md) for fs in (True, False) for cs in CSIZES for md in (Fals
 
 GOOD_KINDS = 3
 BROKEN_KINDS = 3
+
+# A module file is addressed by URI only, so two directories holding the same URI share one module file.  When the
+# file now being loaded lies in another directory than the one the module was generated from and is strictly older
+# than the module, the statement's "served from the first configured directory that contains it" admits no excuse
+# (no same-second ambiguity): serving the module's content is reported under its own key.
+STRICT_XDIR = True
+XDIR_KEY = "priority:module-of-other-directory"
+XDIR_ID = "C14-module-file-shared-across-directories"
 
 
 def good_text(kind, tok):
@@ -115,8 +126,10 @@ SAME = ("same",)
 class World:
     """The real lookup + the reference model, advanced op by op.  No hypothesis in here."""
 
-    def __init__(self, cfg):
+    def __init__(self, cfg, known_ids=()):
         self.cfg = dict(cfg)
+        self.known_ids = set(known_ids)
+        self.excluded = {}
         self.ndirs = cfg["ndirs"]
         self.fs_checks = bool(cfg["fs"])
         self.csize = cfg["cs"]
@@ -124,7 +137,7 @@ class World:
         self.ops = []
         self.files = {}  # (d, u) -> FileM
         self.cache = {}  # u -> Entry
-        self.mods = {}  # u -> (gen_time, ver)
+        self.mods = {}  # u -> (gen_time, ver, dir the module was generated from)
         self.handles = []  # [(Template, expected output)]
         self.vcount = 0
         self.tick = 0
@@ -316,19 +329,24 @@ class World:
         elif f.broken:
             fresh = [("raise", "compile")]
         else:
-            fresh = [("ok", d, f.ver, now, now, True)]
+            fresh = [("ok", d, f.ver, now, now, True, None)]
         if not self.moddir:
             return fresh
         m = self.mods.get(u)
         if m is None or m[0] < f.mtime:
             return fresh  # module absent or older than the source: it must be regenerated
-        # A module file not older than the source exists.  If it was generated from exactly this content it
-        # is the compiled form of the file; otherwise (same-second rewrite, same URI in another directory) the
-        # statement does not say which one is served: accept both.
-        alts = [("ok", d, m[1], m[0], now, False)]
-        if m[1] != f.ver or f.unreadable:
-            alts += fresh
-        return alts
+        # A module file not older than the source exists.
+        from_module = ("ok", d, m[1], m[0], now, False, None)
+        if m[1] == f.ver:
+            # generated from exactly this file content: it is the compiled form of the file
+            return [from_module] + (fresh if f.unreadable else [])
+        if STRICT_XDIR and m[2] != d and f.mtime < m[0]:
+            # generated from the file of ANOTHER directory, and this file is strictly older than the module (it
+            # did not change in the module's second): must be served from this directory.  The module's content
+            # is recognised (tag) so that it gets its own key, but it is not acceptable.
+            return fresh + [("ok", d, m[1], m[0], now, False, "xdir")]
+        # rewritten within the second the module was generated in: the statement does not say which one is served
+        return [from_module] + fresh
 
     def predict(self, u):
         e = self.cache.get(u)
@@ -379,7 +397,7 @@ class World:
             elif a[0] == "raise":
                 out.append({"toplevel": "TopLevelLookupException", "vanished": "TemplateLookupException",
                             "compile": "CompileException|SyntaxException", "os": "OSError|TemplateLookupException"}[a[1]])
-            else:
+            elif a[6] is None:
                 out.append("LOAD(dir %d, version %s%s)" % (a[1], a[2], "" if a[5] else ", from module file"))
         return " | ".join(out)
 
@@ -494,10 +512,19 @@ class World:
                 key = "content"
             raise self.violation(key, "expected %s; observed new Template filename=%r rendering %r" % (exp, t.filename, out))
         a = cand[0]
+        if a[6] == "xdir":
+            m = self.mods[u]
+            if XDIR_ID in self.known_ids:
+                self.excluded[XDIR_ID] = self.excluded.get(XDIR_ID, 0) + 1
+                self.label("event:known-xdir-module-served")
+            else:
+                raise self.violation(XDIR_KEY, "expected %s; observed a Template with filename=%r rendering %r = the content "
+                                     "of the file in directory %d, kept in the module file generated at %s (this file: mtime %s, "
+                                     "unchanged since before that)" % (exp, t.filename, out, m[2], m[0], self.files[(a[1], u)].mtime))
         if a[5]:
             self.label("outcome:load-compiled")
             if self.moddir:
-                self.mods[u] = (self.sim.now, a[2])
+                self.mods[u] = (self.sim.now, a[2], a[1])
         else:
             self.label("outcome:load-from-module")
             if a[2] != self.files[(a[1], u)].ver:
@@ -648,11 +675,12 @@ def minimise(failure):
             else:
                 i += chunk
         chunk //= 2
-    # simplify the configuration: fewer directories when no op needs them
     return best
 
 
 def classify(f):
+    if f.key == XDIR_KEY:
+        return XDIR_ID
     return None
 
 
@@ -706,7 +734,7 @@ def make_machine(base_cfg, ev, known, state):
                     pre=st.lists(st.tuples(dirs, st.integers(0, NURI - 1), ck), min_size=2, max_size=6))
         def init(self, ndirs, hot, pre):
             cfg = dict(base_cfg, ndirs=ndirs, hot=hot)
-            self.w = World(cfg).open()
+            self.w = World(cfg, known_ids=known).open()
             for d, u, k in pre:
                 self.do("write", d % ndirs, u % hot, k)
 
@@ -875,6 +903,8 @@ def record(ev, w, state):
     ev.case(key=[cfg, w.ops], nontrivial=bool(w.nt), labels=labels)
     for l in w.labels:
         ev.labels[l] += 1
+    for kid, n in w.excluded.items():
+        ev.excluded_known[kid] += n
     state["steps"] = state.get("steps", 0) + len(w.ops)
     for x in sorted(w.nt) or ["trivial"]:
         ev.sample({"cfg": cfg, "ops": w.ops, "nontrivial_by": sorted(w.nt)}, x)
@@ -916,7 +946,7 @@ def shard(task):
 
 
 def run(ctx):
-    n = ctx.pick(300, 2000)
+    n = ctx.pick(300, 1200)
     reps = ctx.pick(1, 8)
     tasks = []
     for r in range(reps):
